@@ -43,8 +43,10 @@ LEVEL = 'exploration'
 RULE = (
     'cases = (i) seeded synthetic estimation outcomes (1-8 parameters; names long / with "_" / not alphabetical / '
     'sharing their first 10 characters; values over 16 orders of magnitude; active bounds; optional bootstrap) and real '
-    'logit estimations, each followed by a seeded history of 1-12 output-producing calls in a scratch directory '
-    'pre-populated with earlier output (none, base name, base+~00, runs, gaps, 120 earlier versions, look-alike names); '
+    'logit estimations, each followed by a seeded history of 1-12 output-producing calls (including the default '
+    'construction BIOGEME(database, formula), which reads or creates biogeme.toml) in a scratch directory '
+    'pre-populated with earlier output (none, base name, base+~00, runs, gaps, 120 earlier versions, look-alike names; '
+    'with or without a user-written biogeme.toml); '
     '(ii) seeded parameter sets in which every parameter takes a value admitted by its own check functions (special and '
     'random floats, ints where floats are expected, both booleans, every algorithm name, strings needing escapes), plus '
     'directed cases. A case is non-trivial when at least one file was written by biogeme and read back / re-parsed by a '
@@ -54,9 +56,10 @@ ASSUMPTIONS = [
     'the file system of the scratch directory reports inode / mtime_ns / size faithfully; sha1 of the content identifies it',
     'sys.addaudithook "open"/"os.rename"/"os.remove"/"shutil.copyfile" events are raised for every such operation of the interpreter',
     'stdlib tomllib, html.parser and pickle are the independent readers of what biogeme wrote',
-    'the parameter-file round trip is exercised under the tomlkit behaviour biogeme was written against (older tomlkit '
-    'releases accepted line breaks in Item.comment; biogeme declares tomlkit>=0.12.5): a shim restores that one '
-    'method inside the round-trip cases; the directed case parameters-dump-installed-tomlkit runs WITHOUT the shim',
+    'the parameter-file round trip runs on the real code path with the installed tomlkit (0.15.1 here), no shim',
+    'biogeme.toml is judged like a result file for "never replaces an existing file": BIOGEME(database, formula) without '
+    'a Parameters object must read an existing biogeme.toml and may only create it when it is absent '
+    '(Parameters.dump_file to a name chosen by the caller overwrites by design and is not judged for that)',
     'admissible parameter values = values of the declared type of the parameter (ints also for floats and for the '
     '"number" missing_data) accepted by every function in its check tuple; numpy scalars, complex numbers and booleans '
     'given to integer parameters are not judged',
@@ -74,13 +77,14 @@ N_REAL = {'quick': 36, 'thorough': 200}
 N_PAR = {'quick': 160, 'thorough': 1500}
 N_PARREAD = {'quick': 60, 'thorough': 500}
 
+# the first four are regression cases of defects repaired in /repo (99b7eb3, 99b7eb3, 5c828cd, 3b6f467): they must hold
 DIRECTED = [
     'parameters-dump-installed-tomlkit', 'biogeme-default-parameter-file', 'recycle-beyond-100-versions',
     'latex-exponent-values', 'base-and-00-present', 'backup-twice', 'f12-shared-prefix', 'active-bound-roundtrip',
     'zero-valued-parameters', 'dump-on-file-thrice', 'recycle-two-digit-run', 'real-estimate-validate-recycle',
 ]
 
-PROTECTED = ('html', 'pickle', 'tex', 'F12', 'dat')
+PROTECTED = ('html', 'pickle', 'tex', 'F12', 'dat', 'toml')
 LATEX_MALFORMED_IS_VIOLATION = True
 
 
@@ -207,6 +211,7 @@ class Ctx:
         self.origin = {}  # pickle file name -> (results object held in memory, tables taken when it was written)
         self.pickle_order = []  # model pickles in creation order (prepopulated ones first, by version)
         self.read_back = 0
+        self.toml_values = None  # what the biogeme.toml of the directory holds, when the harness knows it
 
     def viol(self, mech, msg, **kw):
         w = dict(self.wit)
@@ -691,6 +696,86 @@ def op_backup(ctx: Ctx, rename: bool, pr: random.Random, target=None):
     ctx.origin.pop(target, None) if rename else None
 
 
+def write_user_toml(ctx: Ctx, seed, i):
+    from ..gen import c14_work as gen
+    from ..oracle import c14_reports as orc
+
+    vals = gen.make_user_toml_values(seed, i)
+    pr = random.Random(f'spell-{seed}-{i}')
+    spell = {k: pr.choice(['True', 'true', 'Yes', 'yes'] if v else ['False', 'false', 'No', 'no']) for k, v in vals.items() if isinstance(v, bool)}
+    orc.write_parameter_file(os.path.join(ctx.d, 'biogeme.toml'), vals, spell)
+    ctx.toml_values = vals
+    ctx.rec.c('prepop_user_biogeme_toml')
+
+
+def op_default_biogeme(ctx: Ctx):
+    """BIOGEME(database, formula) without a Parameters object: reads biogeme.toml if it exists (and leaves it alone),
+    creates it otherwise; what it created reads back as the default values"""
+    import tomllib
+    import pandas as pd
+    import biogeme.database as db
+    from biogeme.biogeme import BIOGEME
+    from biogeme.expressions import Beta, Variable
+    from biogeme.parameters import Parameters
+    from ..gen import c14_work as gen
+
+    existed = os.path.exists(os.path.join(ctx.d, 'biogeme.toml'))
+
+    def make():
+        data = db.Database('tiny', pd.DataFrame({'y': [1.0, 2.0]}))
+        return BIOGEME(data, -(Variable('y') - Beta('b', 0.5, None, None, 0)) ** 2)
+
+    bg, err, new, before, after = monitored(ctx, 'default_biogeme', make)
+    if err is not None:
+        import traceback
+
+        through_dump = any(fr.name == 'dump_file' for fr in traceback.extract_tb(err.__traceback__))
+        mech = f'parameters-dump_file-raises-{type(err).__name__}' if through_dump else f'default_biogeme-raises-{type(err).__name__}'
+        ctx.viol(mech, f'BIOGEME(database, formula) with{"" if existed else "out"} biogeme.toml in the directory raised {type(err).__name__}: {err}')
+        return
+    prot_new = [f for f in new if _ext(f) in PROTECTED]
+    defaults = {(k.name, k.section): v.value for k, v in Parameters().all_parameters_dict.items()}
+    if existed:
+        # (a replaced / rewritten biogeme.toml is reported by monitored(): 'toml' is a protected extension)
+        ctx.rec.c('existing_parameter_file_read_by_default_construction')
+        if prot_new:
+            ctx.viol('default_biogeme-created-files-although-biogeme.toml-existed', f'new files {prot_new}')
+        if ctx.toml_values is not None:
+            ctx.read_back += 1
+            expected = dict(defaults)
+            expected.update(ctx.toml_values)
+            _compare_parameters(ctx, expected, bg.biogeme_parameters, 'existing-parameter-file-not-honoured', 'biogeme.toml present before BIOGEME(database, formula)')
+    else:
+        if prot_new != ['biogeme.toml']:
+            ctx.viol('default-parameter-file-not-created', f'BIOGEME(database, formula) without biogeme.toml created {prot_new}')
+            return
+        ctx.rec.c('default_parameter_file_created')
+        ctx.read_back += 1
+        try:
+            with open(os.path.join(ctx.d, 'biogeme.toml'), 'rb') as f:
+                doc = tomllib.load(f)
+        except BaseException as e:
+            ctx.viol('dumped-parameter-file-is-not-valid-toml', f'biogeme.toml: {type(e).__name__}: {e}')
+            return
+        for (name, section), v in defaults.items():
+            ctx.rec.ev()
+            w = doc.get(section, {}).get(name, KeyError)
+            if w is KeyError:
+                ctx.viol('dumped-parameter-file-lacks-parameter', f'{name} [{section}] is not in the created biogeme.toml')
+            elif isinstance(v, bool):
+                if not (isinstance(w, str) and w in ('True', 'False') and (w == 'True') == v) and w is not v:
+                    ctx.viol('dumped-parameter-file-bool-coding', f'{name}: {v!r} written as {w!r}')
+            elif not gen.same_value(v, w):
+                ctx.viol(f'dumped-parameter-file-{gen.kind_of(v)}-value-differs', f'{name} [{section}]: {v!r} written as {w!r}')
+        q = Parameters()
+        try:
+            q.read_file(os.path.join(ctx.d, 'biogeme.toml'))
+            _compare_parameters(ctx, defaults, q, 'default-parameter-file', 'biogeme.toml created by BIOGEME(database, formula) -> read_file')
+        except BaseException as e:
+            ctx.viol(f'parameters-read_file-raises-{type(e).__name__}', f'created biogeme.toml: {e}')
+        ctx.toml_values = defaults
+
+
 def register_prepopulated(ctx: Ctx, made: dict, model: str):
     vs = sorted((v, fn) for fn, v in made.items() if v is not None and fn.endswith('.pickle') and (fn == f'{model}.pickle' or fn.startswith(model + '~')))
     ctx.pickle_order += [fn for _, fn in vs]
@@ -711,6 +796,8 @@ def run_syn(case, rec, raw=None, hist=None, prepop_seed=None):
     model = raw['model_name']
     made = gen.prepopulate(d, model, hist['prepop'], seed, i)
     register_prepopulated(ctx, made, model)
+    if hist.get('user_toml'):
+        write_user_toml(ctx, seed, i)
     r = gen.build_results(raw)
     names = list(raw['names'])
     values = [float(x) for x in raw['beta']]
@@ -748,6 +835,8 @@ def run_syn(case, rec, raw=None, hist=None, prepop_seed=None):
             if bg is None:
                 bg = tiny_biogeme(model, raw['threshold'])
             do_recycle(ctx, bg, model)
+        elif op == 'default_biogeme':
+            op_default_biogeme(ctx)
     if ctx.read_back:
         rec.key([wit['raw'], hist])
     rec.sample({'model': model, 'parameters': names, 'values': values, 'prepopulated': hist['prepop'], 'history': hist['ops'],
@@ -770,6 +859,8 @@ def run_real(case, rec, spec=None, hist=None):
     model = spec['model_name']
     made = gen.prepopulate(d, model, hist['prepop'], seed, i, exts=('html', 'pickle', 'tex'))
     register_prepopulated(ctx, made, model)
+    if hist.get('user_toml'):
+        write_user_toml(ctx, seed, i)
     rec.c('prepop_' + hist['prepop'])
     r = None
     bg = None
@@ -820,6 +911,8 @@ def run_real(case, rec, spec=None, hist=None):
             op_dump_on_file(ctx, seed, i, j)
         elif op == 'recycle':
             do_recycle(ctx, bg, model)
+        elif op == 'default_biogeme':
+            op_default_biogeme(ctx)
         elif op == 'validate':
             from ..oracle import c14_reports as orc
             from biogeme.parameters import Parameters
@@ -830,6 +923,7 @@ def run_real(case, rec, spec=None, hist=None):
                 vals[('save_iterations', 'Estimation')] = False
                 vals[('tolerance', 'SimpleBounds')] = float(vals[('tolerance', 'SimpleBounds')])
                 orc.write_parameter_file(os.path.join(d, 'biogeme.toml'), vals)
+                ctx.toml_values = vals
             df = database.data
             half = len(df) // 2
             vd = [db.EstimationValidation(estimation=df.iloc[:half].copy(), validation=df.iloc[half:].copy()),
@@ -882,13 +976,12 @@ def _compare_parameters(ctx: Ctx, expected: dict, params, mech: str, what: str):
     return bad
 
 
-def run_par(case, rec, values=None, shim=True):
+def run_par(case, rec, values=None):
     """dump -> independent reading -> fresh Parameters.read_file -> dump again -> read"""
     import tomllib
     from biogeme.parameters import Parameters
     from ..gen import c14_work as gen
     from ..oracle import c14_reports as orc
-    import contextlib
 
     seed, i = case['seed'], case['i']
     d = _scratch(case)
@@ -902,13 +995,11 @@ def run_par(case, rec, values=None, shim=True):
         except BaseException as e:
             ctx.viol(f'set_value-refuses-admissible-value-{type(e).__name__}', f'{name}={v!r}: {e}')
             return ctx
-    cm = orc.legacy_tomlkit_comment() if shim else contextlib.nullcontext()
-    with cm:
+    if True:  # (real code path, installed tomlkit)
         try:
             p.dump_file('first.toml')
         except BaseException as e:
-            ctx.viol(f'parameters-dump_file-raises-{type(e).__name__}' + ('' if shim else '-with-installed-tomlkit'),
-                     f'Parameters.dump_file raised {type(e).__name__}: {e}')
+            ctx.viol(f'parameters-dump_file-raises-{type(e).__name__}', f'Parameters.dump_file raised {type(e).__name__}: {e}')
             return ctx
         rec.c('parameter_files_dumped')
         # independent reading of the file
@@ -1006,42 +1097,19 @@ def run_directed(case, rec):
 
         tuples = list(Parameters().all_parameters_dict.values())
         defaults = {(t.name, t.section): t.value for t in tuples}
-        ctx = run_par(case, rec, values=defaults, shim=False)
+        ctx = run_par(case, rec, values=defaults)
         return ctx
     if name == 'biogeme-default-parameter-file':
-        # BIOGEME(database, formula) in an empty directory creates biogeme.toml; a second object reads it back
+        # regression of 99b7eb3: BIOGEME(database, formula) in an empty directory creates biogeme.toml; a second object
+        # reads it back unchanged; a user-written biogeme.toml is honoured and left alone
         d = _scratch(case)
         ctx = Ctx(rec, d, {'directed': name})
-        import pandas as pd
-        import biogeme.database as db
-        from biogeme.biogeme import BIOGEME
-        from biogeme.expressions import Beta, Variable
-
-        def make():
-            data = db.Database('tiny', pd.DataFrame({'y': [1.0, 2.0]}))
-            return BIOGEME(data, -(Variable('y') - Beta('b', 0.5, None, None, 0)) ** 2)
-
-        try:
-            b1 = make()
-        except BaseException as e:
-            import traceback
-
-            through_dump = any(fr.name == 'dump_file' for fr in traceback.extract_tb(e.__traceback__))
-            # same mechanism as the directed case above when the exception comes out of Parameters.dump_file
-            mech = (f'parameters-dump_file-raises-{type(e).__name__}-with-installed-tomlkit' if through_dump
-                    else f'default-parameter-file-creation-raises-{type(e).__name__}')
-            ctx.viol(mech, f'BIOGEME(database, formula) in a directory without biogeme.toml raised {type(e).__name__}: {e}')
-            return ctx
-        try:
-            b2 = make()
-            ctx.read_back += 1
-            for k, v in b1.biogeme_parameters.all_parameters_dict.items():
-                rec.ev()
-                w = b2.biogeme_parameters.get_value(k.name, k.section)
-                if not gen.same_value(v.value, w):
-                    ctx.viol(f'default-parameter-file-{gen.kind_of(v.value)}-value-differs', f'{k.name}: {v.value!r} read back as {w!r}')
-        except BaseException as e:
-            ctx.viol(f'default-parameter-file-read-raises-{type(e).__name__}', str(e))
+        op_default_biogeme(ctx)
+        op_default_biogeme(ctx)
+        os.rename(os.path.join(d, 'biogeme.toml'), os.path.join(d, 'created_by_biogeme.txt'))
+        write_user_toml(ctx, seed, 424242)
+        op_default_biogeme(ctx)
+        op_default_biogeme(ctx)
         rec.key(name)
         return ctx
     if name == 'recycle-beyond-100-versions':
@@ -1128,7 +1196,8 @@ def finalize(cov, tier):
             'fresh_files_pickle', 'fresh_files_tex', 'fresh_files_F12', 'fresh_files_dat', 'backups_made', 'real_estimations',
             'validation_dumps', 'file_events_seen', 'fresh_name_contract_evaluations', 'prepop_base_and_00', 'prepop_many_120',
             'prepop_gap_01', 'f12_labels_truncated_to_10', 'parameter_kind_bool', 'parameter_kind_int', 'parameter_kind_float',
-            'parameter_kind_str', 'recycle_tables_compared']
+            'parameter_kind_str', 'recycle_tables_compared', 'recycle_returned_latest_beyond_100', 'default_parameter_file_created',
+            'existing_parameter_file_read_by_default_construction', 'prepop_user_biogeme_toml', 'calls_default_biogeme']
     for k in need:
         if cov.get(k, 0) == 0:
             out.append(f'monitor never evaluated: {k}')
